@@ -63,7 +63,7 @@ def run(run):
                    env={'VERIF_LANG': 'LTiny', 'VERIF_DEPTH': 3, 'VERIF_MAXREJ': 0}, timeout=1500,
                    name='every accepted ModelSM behaviour of depth 3 on LTiny')
     n = 1500 if quick else 25000
-    for lang in ('LDup', 'LDef', 'LTiny'):
+    for lang in ('LDup', 'LDef', 'LSame'):
         run.gen_replay('Gen_Model', 'Gen_Model_sim.cfg', A, {'langs': langs},
                        env={'VERIF_LANG': lang, 'VERIF_DEPTH': 10, 'VERIF_MAXREJ': 0}, simulate=10 ** 9, depth=11,
                        max_cases=n, workers=8, timeout=400 if quick else 2400,
